@@ -258,6 +258,7 @@ package f3
 //@   requires storeInv(h.certStore)
 //@   modifies auto
 //@   maypanic
+//@   ensures[store_shape_is_kept] h.certStore == old(h.certStore) && storeInv(h.certStore)
 //@   at GetTipset 1
 //@     before[initial_table_inside_the_lookback_window] h.manifest.InitialInstance + h.manifest.CommitteeLookback <= 18446744073709551615
 //@          && instance < h.manifest.InitialInstance + h.manifest.CommitteeLookback ==>
@@ -272,3 +273,21 @@ package f3
 //@     before[only_inside_the_lookback_window] h.manifest.InitialInstance + h.manifest.CommitteeLookback <= 18446744073709551615 ==> instance < h.manifest.InitialInstance + h.manifest.CommitteeLookback
 //@   at Add 1
 //@     before[committee_table_is_built_from_those_entries] arg(1) == powerEntries
+
+// C03: the decision is turned into a certificate with the delta between this instance's and the next instance's
+// tables, and is stored only after that very certificate passed certificate validation against this instance's table.
+//@ func (*gpbftHost).saveDecision
+//@   property C03
+//@   requires storeInv(h.certStore) && storeInv(h.inputs.certStore)
+//@   modifies auto
+//@   maypanic
+//@   at MakePowerTableDiff 1
+//@     before[delta_is_between_the_committees_of_this_and_the_next_instance] argOf(GetCommittee, 1, 2) == decision.Vote.Instance && (decision.Vote.Instance < 18446744073709551615 ==> argOf(GetCommittee, 2, 2) == decision.Vote.Instance + 1) && res(GetCommittee, 1, 1) == nil && res(GetCommittee, 2, 1) == nil && arg(0) == res(GetCommittee, 1, 0).PowerTable.Entries && arg(1) == res(GetCommittee, 2, 0).PowerTable.Entries
+//@   at NewFinalityCertificate 1
+//@     before[certificate_is_built_from_the_decision_and_that_delta] arg(0) == res(MakePowerTableDiff, 1) && arg(1) == decision
+//@   at ValidateFinalityCertificates 1
+//@     before[validated_as_the_certificate_of_its_instance_against_this_instances_table] res(NewFinalityCertificate, 1, 1) == nil && arg(2) == res(GetCommittee, 1, 0).PowerTable.Entries && arg(3) == decision.Vote.Instance && len(arg(5)) == 1 && arg(5)[0] == res(NewFinalityCertificate, 1, 0)
+//@   at Put 1
+//@     before[stored_only_after_it_validated] res(ValidateFinalityCertificates, 1, 3) == nil && arg(2) == res(NewFinalityCertificate, 1, 0)
+//@   at return 0
+//@     before[success_means_validated_and_stored] arg(1) == nil ==> dominatedBy(Put, 1) && res(Put, 1) == nil && arg(0) == res(NewFinalityCertificate, 1, 0)
